@@ -33,6 +33,10 @@ def setup_repo_path():
         raise RuntimeError('mitxgraders imported from %s, expected %s' % (where, REPO))
 
 
+class AbortShard(BaseException):
+    """Too many confirmed non-terminating calls: stop this shard's workload, keep what was recorded."""
+
+
 class WatchdogFired(BaseException):
     """CPU-time budget exceeded.  BaseException: passes through `except Exception`."""
 
@@ -194,6 +198,8 @@ class Ctx(object):
         """Call fn under the CPU watchdog; returns ('ok', value) | ('exc', exception) |
         ('hang', None).  A first watchdog firing is retried alone with a 20x budget."""
         budget = kwargs.pop('_budget', 4.0)
+        if self.confirmed_hangs >= 8:
+            raise AbortShard()
         # once a non-terminating call has been confirmed with the long budget, later firings of the short
         # budget are taken at face value (a change that makes a whole class of calls hang would otherwise
         # cost 21x the budget per case and run the shard into the wall-clock watchdog)
